@@ -458,4 +458,91 @@ theorem wanOriginated_step (rt : RouteIn → Int) (w : World) (h : Hook) (s : Sk
     exfalso; apply hfk
     rcases hh with rfl | rfl <;> simp [frameKey, hp, hpk]
 
+/-! ## port-53 UDP tuples never get a conn-state decision -/
+
+theorem getTuples_udp_ports (c : Ctx) (h : c.l4proto = IPPROTO_UDP) :
+    (getTuples c).five.sport = c.udpSport ∧ (getTuples c).five.dport = c.udpDport := by
+  have hn : ¬ (c.l4proto = IPPROTO_TCP) := by rw [h]; decide
+  unfold getTuples
+  simp only [hn, if_false]
+  split <;> exact ⟨rfl, rfl⟩
+
+/-- one step never writes a decision under a short-lived (port-53 UDP) tuple -/
+theorem dns_noDecision_step (rt : RouteIn → Int) (w : World) (h : Hook) (s : Skb) (l2 : Bool) (k : Key)
+    (hk : shortLivedUdp k = true) (hn : NoDecision w k) : NoDecision (step rt w h s l2).1 k := by
+  have h4 : k.l4 = IPPROTO_UDP := by
+    unfold shortLivedUdp at hk
+    simp only [Bool.and_eq_true, beq_iff_eq] at hk
+    exact hk.1
+  by_cases hfk : frameKey h s l2 = some k
+  · cases h with
+    | lanIngress =>
+      obtain ⟨p, hp, hpk⟩ := frameKey_capture (Or.inl rfl) hfk
+      subst hpk
+      have hu : p.l4proto = IPPROTO_UDP := by rw [← parsePacket_l4 hp]; exact h4
+      have hnt : p.l4proto ≠ IPPROTO_TCP := by rw [hu]; decide
+      simp only [step]
+      rw [lanIngress_pkt rt w s l2 p hp, lanIngressPkt_dns rt w s l2 p hnt hk]
+      have hconn : (lanRouteNew rt w s l2 p none).1.conn = w.conn := by
+        unfold lanRouteNew lanCache
+        simp only [hu, hk, decide_true, Bool.and_self, if_true]
+        leaves <;> first | rfl | simp
+      intro cs hl; rw [hconn] at hl; exact hn cs hl
+    | wanEgress =>
+      obtain ⟨p, hp, hpk⟩ := frameKey_capture (Or.inr rfl) hfk
+      subst hpk
+      have hu : p.l4proto = IPPROTO_UDP := by rw [← parsePacket_l4 hp]; exact h4
+      simp only [step]
+      by_cases hi : s.ingressIf = 0
+      · rw [wanEgress_udp rt w s l2 p hi hp hu]
+        have hconn : (wanEgressUdp rt w s l2 p).1.conn = w.conn := by
+          unfold wanEgressUdp
+          simp only [hk, Bool.not_true, Bool.false_eq_true, if_false]
+          split
+          · simp
+          · unfold wanUdpRouted
+            simp only
+            split <;> simp
+        intro cs hl; rw [hconn] at hl; exact hn cs hl
+      · rw [Props.wan_forwarded_passes rt w s l2 hi]; exact hn
+    | wanIngress =>
+      obtain ⟨code, c, hp, hck⟩ := frameKey_reverse (Or.inl rfl) hfk
+      simp only [step, wanIngress, hp]
+      split
+      · exact hn
+      · have hl4 : c.l4proto = IPPROTO_UDP := by rw [← getTuples_l4 c, ← rev_l4, hck]; exact h4
+        have hports := getTuples_udp_ports c hl4
+        have h53 : (decide (c.udpSport = 53) || decide (c.udpDport = 53)) = true := by
+          unfold shortLivedUdp at hk
+          rw [← hck] at hk
+          simp only [Key.rev, hports.1, hports.2, Bool.and_eq_true, beq_iff_eq, Bool.or_eq_true] at hk
+          rcases hk.2 with h | h
+          · simp [h]
+          · simp [h]
+        have hnt : ¬ (c.l4proto = IPPROTO_TCP) := by rw [hl4]; decide
+        unfold reverseRefresh
+        rw [if_neg hnt, if_pos hl4, if_pos h53]
+        exact hn
+    | lanEgress =>
+      obtain ⟨code, c, hp, hck⟩ := frameKey_reverse (Or.inr rfl) hfk
+      simp only [step, lanEgress, hp]
+      split
+      · exact hn
+      · split
+        · exact hn
+        · have hl4 : c.l4proto = IPPROTO_UDP := by rw [← getTuples_l4 c, ← rev_l4, hck]; exact h4
+          have hports := getTuples_udp_ports c hl4
+          have h53 : (decide (c.udpSport = 53) || decide (c.udpDport = 53)) = true := by
+            unfold shortLivedUdp at hk
+            rw [← hck] at hk
+            simp only [Key.rev, hports.1, hports.2, Bool.and_eq_true, beq_iff_eq, Bool.or_eq_true] at hk
+            rcases hk.2 with h | h
+            · simp [h]
+            · simp [h]
+          have hnt : ¬ (c.l4proto = IPPROTO_TCP) := by rw [hl4]; decide
+          unfold reverseRefresh
+          rw [if_neg hnt, if_pos hl4, if_pos h53]
+          exact hn
+  · exact fun cs hl => hn cs (by rw [← step_lookup_ne rt w h s l2 k hfk]; exact hl)
+
 end DaeVerif.C03
